@@ -466,4 +466,146 @@ theorem last_line_request_panics :
     indexToPosition len16Ex ['a', 'b', '\n', 'c', 'd'] 3 = .ok ⟨1, 0⟩ ∧
     selects len16Ex ['a', 'b', '\n', 'c', 'd'] ⟨⟨0, 2⟩, ⟨1, 0⟩⟩ ⟨1, 4⟩ = .error .spanNew := by decide
 
+/-! ### w26 — "a code-action request inside a diagnostic's range returns that lint's fixes"
+
+`codeActions_found_partial` only says that the `overlaps_with` filter of `generate_code_actions` KEEPS the lint. The three
+theorems below are about the edits the request is answered with: `codeActionEdits` (`Lemmas/PosConv.lean`) composes the
+model's `rangeToSpan`, `Span.overlapsWith`, `Span.withLen` and `editOf` exactly as `generate_code_actions` /
+`lint_to_code_actions` do (`range_to_span(..).with_len(1)`, `.filter(..)`, `.flat_map(lint_to_code_actions)`, one
+`TextEdit` per suggestion). What stays outside: the lints are DATA here (that `generate_code_actions` lints under
+`new_curated()` merged with the user's configuration, removes the ignored lints and sorts by priority is not
+modelled; the order of `lints` below is whatever that pipeline yields), and the range-less commands appended after
+the edits. -/
+
+/-- the three constructors of `Sugg` as C03's `Suggestion` (the model of the real `Suggestion::apply`) -/
+def toSuggestion : Sugg → Suggestion Char
+  | .replaceWith r => .replaceWith r
+  | .insertAfter r => .insertAfter r
+  | .remove => .remove
+
+/-- `lint_to_code_actions` cannot panic on a suggestion of a lint whose span is inside the text: `span_to_range` and
+`get_content_string` succeed (no assumption on line terminators — those only matter for how a CLIENT reads the range). -/
+theorem editOf_ok (len16 : Char → Nat) (src : List Char) (sugg : Sugg) (sp : Span)
+    (hse : sp.start ≤ sp.stop) (hel : sp.stop ≤ src.length) :
+    ∃ e, editOf len16 src sugg sp = .ok e := by
+  obtain ⟨a, ha, _⟩ := indexToPosition_spec len16 src sp.start (by omega)
+  obtain ⟨b, hb, _⟩ := indexToPosition_spec len16 src sp.stop hel
+  have hr : spanToRange len16 src sp = .ok ⟨a, b⟩ := by simp [spanToRange, ha, hb]
+  cases sugg with
+  | replaceWith x => exact ⟨⟨⟨a, b⟩, x⟩, by simp [editOf, hr]⟩
+  | remove => exact ⟨⟨⟨a, b⟩, []⟩, by simp [editOf, hr]⟩
+  | insertAfter x =>
+    have hc : ∃ c, sp.getContent src = .ok c := by
+      unfold Span.getContent
+      rw [if_neg (by omega)]
+      by_cases hlt : sp.start < src.length
+      · rw [if_neg (by omega)]; exact ⟨_, rfl⟩
+      · rw [if_pos (by omega)]
+        have : (sp.stop == sp.start) = true := by simp; omega
+        simp [this]
+    obtain ⟨c, hc⟩ := hc
+    exact ⟨⟨⟨a, b⟩, c ++ x⟩, by simp [editOf, hr, hc]⟩
+
+/-- **The answer to a code-action request, exactly.** All lint spans inside the text; the request runs from the
+position of `i` to the position of `j ≥ i`, neither on the last line of a multi-line text (the recorded finding,
+as in `codeActions_found_partial`). Then `generate_code_actions` does not panic and its quick-fix edits are, in lint
+order and per lint in suggestion order, the `TextEdit` of EVERY suggestion of EXACTLY the lints whose span overlaps
+the one character at `i` — nothing dropped, nothing added, no edit of a lint elsewhere. -/
+theorem codeActions_edits_exact_partial (len16 : Char → Nat) (h16 : ∀ c, 1 ≤ len16 c)
+    (src : List Char) (lints : List (Span × List Sugg))
+    (hok : ∀ l ∈ lints, l.1.start ≤ l.1.stop ∧ l.1.stop ≤ src.length)
+    (i j : Nat) (hi : i < src.length) (hij : i ≤ j) (hj : j ≤ src.length)
+    (hli : lineOf src i < newlines src ∨ newlines src = 0)
+    (hlj : lineOf src j < newlines src ∨ newlines src = 0) :
+    ∃ p q, indexToPosition len16 src i = .ok p ∧ indexToPosition len16 src j = .ok q ∧
+      codeActionEdits len16 src ⟨p, q⟩ lints =
+        .ok ((lints.filter fun l => l.1.overlapsWith ⟨i, i + 1⟩).flatMap fun l => l.2.map (editOr len16 src l.1)) ∧
+      ∀ l ∈ lints, ∀ s ∈ l.2, editOf len16 src s l.1 = .ok (editOr len16 src l.1 s) := by
+  obtain ⟨p, hp, hpi⟩ := positionToIndex_roundtrip_partial len16 h16 src i (by omega) hli
+  obtain ⟨q, hq, hqj⟩ := positionToIndex_roundtrip_partial len16 h16 src j hj hlj
+  have hnew : Span.new i j = .ok ⟨i, j⟩ := by
+    unfold Span.new; rw [if_neg (by omega)]
+  have hall : ∀ l ∈ lints, ∀ s ∈ l.2, editOf len16 src s l.1 = .ok (editOr len16 src l.1 s) := by
+    intro l hl s _
+    obtain ⟨e, he⟩ := editOf_ok len16 src s l.1 (hok l hl).1 (hok l hl).2
+    rw [he, editOr_of_ok he]
+  refine ⟨p, q, hp, hq, ?_, hall⟩
+  simp only [codeActionEdits, rangeToSpan, hpi, hqj, hnew, Span.withLen]
+  exact flatEdits_ok len16 src (editOr len16 src) _
+    (fun l hl s hs => hall l (List.mem_filter.1 hl).1 s hs)
+
+/-- **"… returns that lint's fixes."** A request started on any character `i` of a non-empty lint `(lint, suggs)` of
+the document is answered with an edit for each of its suggestions, and each of them — when the lint's ends do not
+split a `\r\n` — applied by a client gives exactly what `Suggestion::apply` (C03's model) gives on the character
+span; and every edit in the answer is such a fix of a lint under `i` (no foreign edits). -/
+theorem codeActions_fixes_partial (len16 : Char → Nat) (h16 : ∀ c, 1 ≤ len16 c)
+    (src : List Char) (lints : List (Span × List Sugg))
+    (hok : ∀ l ∈ lints, l.1.start ≤ l.1.stop ∧ l.1.stop ≤ src.length)
+    (hcr : NoLoneCR src)
+    (hcrlf : ∀ l ∈ lints, ¬ InsideCRLF src l.1.start ∧ ¬ InsideCRLF src l.1.stop)
+    (lint : Span) (suggs : List Sugg) (hmem : (lint, suggs) ∈ lints)
+    (i j : Nat) (hs : lint.start ≤ i) (he : i < lint.stop) (hij : i ≤ j) (hj : j ≤ src.length)
+    (hli : lineOf src i < newlines src ∨ newlines src = 0)
+    (hlj : lineOf src j < newlines src ∨ newlines src = 0) :
+    ∃ p q es, indexToPosition len16 src i = .ok p ∧ indexToPosition len16 src j = .ok q ∧
+      codeActionEdits len16 src ⟨p, q⟩ lints = .ok es ∧
+      (∀ s ∈ suggs, ∃ e ∈ es, editOf len16 src s lint = .ok e ∧
+        (toSuggestion s).apply lint src = .ok (clientApply len16 src e)) ∧
+      (∀ e ∈ es, ∃ l ∈ lints, l.1.start ≤ i ∧ i < l.1.stop ∧ ∃ s ∈ l.2, editOf len16 src s l.1 = .ok e ∧
+        (toSuggestion s).apply l.1 src = .ok (clientApply len16 src e)) := by
+  have hlen : lint.stop ≤ src.length := (hok _ hmem).2
+  obtain ⟨p, q, hp, hq, hes, hall⟩ :=
+    codeActions_edits_exact_partial len16 h16 src lints hok i j (by omega) hij hj hli hlj
+  have happly : ∀ l ∈ lints, ∀ s ∈ l.2,
+      (toSuggestion s).apply l.1 src = .ok (clientApply len16 src (editOr len16 src l.1 s)) := by
+    intro l hl s hs
+    obtain ⟨e, he1, he2⟩ := textEdit_equiv_apply len16 h16 src s l.1 (hok l hl).1 (hok l hl).2 hcr
+      (hcrlf l hl).1 (hcrlf l hl).2
+    have := hall l hl s hs
+    rw [he1] at this
+    cases this
+    cases s <;> simpa [toSuggestion] using he2
+  refine ⟨p, q, _, hp, hq, hes, ?_, ?_⟩
+  · intro s hs
+    refine ⟨editOr len16 src lint s, ?_, hall _ hmem s hs, happly _ hmem s hs⟩
+    simp only [List.mem_flatMap, List.mem_filter, List.mem_map]
+    refine ⟨(lint, suggs), ⟨hmem, ?_⟩, s, hs, rfl⟩
+    simp [Span.overlapsWith]; omega
+  · intro e hemem
+    simp only [List.mem_flatMap, List.mem_filter, List.mem_map] at hemem
+    obtain ⟨l, ⟨hl, hov⟩, s, hs, rfl⟩ := hemem
+    simp [Span.overlapsWith] at hov
+    exact ⟨l, hl, by omega, by omega, s, hs, hall l hl s hs, happly l hl s hs⟩
+
+/-- non-vacuity of `codeActions_edits_exact_partial` / `codeActions_fixes_partial`: `"a\n😀b\nc teh\n"`, three lints —
+`😀b` (2..4, two suggestions), `a` (0..1, one suggestion, NOT under the caret), `b` (3..4, `Remove`, under the caret
+too); the request is a caret before `b` (index 3). The answer: the two edits of the first lint, then the one of the
+third, none of the second. -/
+def lintsEx : List (Span × List Sugg) :=
+  [(⟨2, 4⟩, [.replaceWith ['x'], .insertAfter ['!']]), (⟨0, 1⟩, [.replaceWith ['A']]), (⟨3, 4⟩, [.remove])]
+def srcEx : List Char := ['a', '\n', '😀', 'b', '\n', 'c']
+
+example : codeActionEdits len16Ex srcEx ⟨⟨1, 2⟩, ⟨1, 2⟩⟩ lintsEx =
+    .ok [⟨⟨⟨1, 0⟩, ⟨1, 3⟩⟩, ['x']⟩, ⟨⟨⟨1, 0⟩, ⟨1, 3⟩⟩, ['😀', 'b', '!']⟩, ⟨⟨⟨1, 2⟩, ⟨1, 3⟩⟩, []⟩] := by decide
+
+example : ∃ p q es, indexToPosition len16Ex srcEx 3 = .ok p ∧ indexToPosition len16Ex srcEx 3 = .ok q ∧
+    codeActionEdits len16Ex srcEx ⟨p, q⟩ lintsEx = .ok es ∧
+    (∀ s ∈ [Sugg.replaceWith ['x'], .insertAfter ['!']], ∃ e ∈ es, editOf len16Ex srcEx s ⟨2, 4⟩ = .ok e ∧
+      (toSuggestion s).apply ⟨2, 4⟩ srcEx = .ok (clientApply len16Ex srcEx e)) ∧
+    (∀ e ∈ es, ∃ l ∈ lintsEx, l.1.start ≤ 3 ∧ 3 < l.1.stop ∧ ∃ s ∈ l.2, editOf len16Ex srcEx s l.1 = .ok e ∧
+      (toSuggestion s).apply l.1 srcEx = .ok (clientApply len16Ex srcEx e)) :=
+  codeActions_fixes_partial len16Ex len16Ex_pos srcEx lintsEx (by decide) (by decide) (by decide) ⟨2, 4⟩ _
+    (by decide) 3 3 (by decide) (by decide) (by decide) (by decide) (Or.inl (by decide)) (Or.inl (by decide))
+
+/-- the last-line restriction is needed for the edits as for the filter: on the last line of `First line\nSecnd` the
+answer to a caret on `S` is EMPTY although the lint `Secnd` (12..17) has a fix (the recorded finding, seen at the
+level of the answer) -/
+example : codeActionEdits len16Ex firstSecnd ⟨⟨1, 0⟩, ⟨1, 0⟩⟩ [(⟨12, 17⟩, [.replaceWith ['S', 'e', 'c', 'o', 'n', 'd']])] =
+    .ok [] := by decide
+
+/-- a lint WITHOUT suggestions under the caret contributes no edit and cannot make the call panic even when its span
+is outside the text (`span_to_range` sits inside the per-suggestion closure); one WITH a suggestion does -/
+example : codeActionEdits len16Ex ['a', 'b'] ⟨⟨0, 0⟩, ⟨0, 0⟩⟩ [(⟨0, 9⟩, [])] = .ok [] ∧
+    codeActionEdits len16Ex ['a', 'b'] ⟨⟨0, 0⟩, ⟨0, 0⟩⟩ [(⟨0, 9⟩, [.remove])] = .error .sliceOOB := by decide
+
 end Harper.C08
